@@ -56,17 +56,21 @@ def chunked : Sched → Bool
 
 inductive Read1 where
   | byte (b : Nat)
+  /-- `Ok(0)`: true end of input -/
+  | eof
   | err (kind : IoKind)
 deriving Repr, DecidableEq
 
-/-- `reader.read_exact(&mut buf[..1])` (`std::io::default_read_exact`): `Ok(0)` ⇒ `UnexpectedEof`,
-`Interrupted` is retried, any other error is returned. -/
-def readExact1 : Sched → Read1 × Sched
-  | [] => (.err kUnexpectedEof, [])
-  | .data [] :: rest => (.err kUnexpectedEof, rest)
+/-- the first byte of a character:
+`loop { match reader.read(&mut buf[..1]) { Ok(0) => return None, Ok(_) => break,
+Err(e) if e.kind() == Interrupted => continue, Err(e) => { record; return None } } }`
+(since fix 2f20266; before it `read_exact` made a reader's own `Err(UnexpectedEof)` look like `Ok(0)`). -/
+def readFirst : Sched → Read1 × Sched
+  | [] => (.eof, [])
+  | .data [] :: rest => (.eof, rest)
   | .data [b] :: rest => (.byte b, rest)
   | .data (b :: b' :: bs) :: rest => (.byte b, .data (b' :: bs) :: rest)
-  | .fail k :: rest => if k == kInterrupted then readExact1 rest else (.err k, rest)
+  | .fail k :: rest => if k == kInterrupted then readFirst rest else (.err k, rest)
 
 /-- number of bytes of the sequence announced by the leading byte (the bit tests of the Rust code) -/
 def needed (first : Nat) : Option Nat :=
@@ -140,10 +144,9 @@ deriving Repr, DecidableEq
 
 /-- `ChunkedChars::next` -/
 def next (cc : CC) : Option Char × CC :=
-  match readExact1 cc.reader with
-  | (.err k, r) =>
-    if k == kUnexpectedEof then (none, { cc with reader := r })           -- "true EOF"
-    else (none, { cc with reader := r, cell := some k })
+  match readFirst cc.reader with
+  | (.eof, r) => (none, { cc with reader := r })                          -- true EOF
+  | (.err k, r) => (none, { cc with reader := r, cell := some k })
   | (.byte first, r) =>
     let cc := { cc with reader := r, pulled := cc.pulled + 1 }
     match needed first with
